@@ -529,3 +529,6 @@ Lemma combine_map_fst_snd {A B} (l : list (A * B)) : combine (map fst l) (map sn
 Proof.
   induction l as [|[a b] l IH]; [reflexivity|]. cbn [map combine fst snd]. rewrite IH. reflexivity.
 Qed.
+
+Lemma max_ge_2 : 2 <= maxRemainingLength.
+Proof. unfold maxRemainingLength. lia. Qed.
